@@ -12,6 +12,10 @@ FRAC = 3
 SCALE = 10 ** (4 * FRAC)
 
 
+class NonFinite(ValueError):
+    """an observed quantity that is not a number (nan / inf): there is nothing to ask the specification about"""
+
+
 def num(x, unit=1.0):
     """Encode float/int/Fraction x (divided by `unit`) at 1e-12 resolution."""
     if isinstance(x, Fraction):
@@ -19,7 +23,7 @@ def num(x, unit=1.0):
     else:
         x = float(x)
         if not math.isfinite(x):
-            raise ValueError("non-finite quantity cannot be encoded: %r" % x)
+            raise NonFinite("non-finite quantity cannot be encoded: %r" % x)
         q = Fraction(x) / Fraction(unit)
     n = int(round(q * SCALE))
     s = 1 if n >= 0 else -1
